@@ -190,3 +190,45 @@ func VerifC12IntArgs() {
 	b, _ := AsBulkBytes(a[0], nil)
 	verifAssert(string(b) == strconv.FormatInt(n, 10), "C12.intarg.value")
 }
+
+// VerifC12ManyArgs: commands with many arguments (argument counts at and around every power of two
+// from 64 to 2048 - where implementations keep pre-allocation or chunking thresholds) decode with
+// every argument, the following command decodes as well, and both end offsets are exact.
+func VerifC12ManyArgs() {
+	sizes := []int{63, 64, 65, 255, 256, 257, 1023, 1024, 1025, 2047, 2048, 2049}
+	n := sizes[verifChoose("nargs", len(sizes))]
+	var stream []byte
+	stream = append(stream, '*')
+	stream = append(stream, strconv.Itoa(n+1)...)
+	stream = append(stream, "\r\n$5\r\nRPUSH\r\n"...)
+	vals := verifBytes("v", n)
+	for i := 0; i < n; i++ {
+		stream = append(stream, '$', '1', '\r', '\n', vals[i], '\r', '\n')
+	}
+	end1 := len(stream)
+	stream = append(stream, "*3\r\n$3\r\nSET\r\n$1\r\nk\r\n$1\r\n"...)
+	last := verifU8("last")
+	stream = append(stream, last, '\r', '\n')
+	d := NewDecoder(bufio.NewReaderSize(bytes.NewReader(stream), 64))
+	resp, off, err := MustDecodeOpt(d)
+	verifAssert(err == nil, "C12.decode.no-error")
+	if err != nil {
+		return
+	}
+	verifAssert(off == int64(end1), "C12.decode.offset")
+	_, argv, err := ParseArgs(resp)
+	verifAssert(err == nil, "C12.decode.parseargs")
+	verifAssert(len(argv) == n, "C12.decode.argc")
+	for i := 0; i < len(argv) && i < n; i++ {
+		verifAssert(len(argv[i]) == 1 && argv[i][0] == vals[i], "C12.decode.arg-bytes")
+	}
+	resp2, off2, err2 := MustDecodeOpt(d)
+	verifAssert(err2 == nil, "C12.decode.no-error")
+	if err2 != nil {
+		return
+	}
+	verifAssert(off2 == int64(len(stream)), "C12.decode.offset")
+	name2, argv2, err3 := ParseArgs(resp2)
+	verifAssert(err3 == nil && name2 == "set" && len(argv2) == 2 && len(argv2[1]) == 1 && argv2[1][0] == last, "C12.decode.command-after-large-command")
+	verifReach("decode.many-args")
+}
